@@ -117,6 +117,13 @@ fn registry() -> Vec<CheckDef>
 			level_text: "exhaustive enumeration of all labelled dependency digraphs on a bounded number of containers (constants and structures) with every kind assignment and every permutation of the declarations, all duplicate-name pairs, a type x position legality table under several declaration orders and all word member lists up to three members; each program compiled by the real pipeline and compared with a graph model (acyclic <=> accepted, cycle codes) and across permutations",
 		},
 		CheckDef {
+			id: "C12",
+			drive: checks::c12::drive,
+			work: checks::c12::work,
+			case_timeout_ms: 60_000,
+			level_text: "exhaustive enumeration of programs over a fixed universe of items x all set partitions into 2-4 modules with the induced pub/import lines x all file orders x all orders in which the expander can splice the import pairs (merged by expanded state), every visibility negative of every split, name-reuse scenarios and every history of distinct unrelated modules up to length 3 through one Compiler; each compiled by the real pipeline, linked and executed, compared with the model output of the single-file program and with the module compiled alone",
+		},
+		CheckDef {
 			id: "C09",
 			drive: checks::c09::drive,
 			work: checks::c09::work,
@@ -212,6 +219,49 @@ fn main()
 					Ok(_) => println!("resolved ok"),
 					Err(e) => println!("errors: {:?}", e.codes()),
 				}
+			}
+		}
+		"debug-multi" =>
+		{
+			// pvmc debug-multi [--perm K] [--ir] file...   (file names are used as module paths)
+			let mut files = Vec::new();
+			let mut show_ir = false;
+			let mut i = 2;
+			while i < args.len()
+			{
+				if args[i] == "--perm"
+				{
+					penne::verif::set_import_permutation(Some(args[i + 1].parse().unwrap()));
+					i += 2;
+					continue;
+				}
+				if args[i] == "--ir"
+				{
+					show_ir = true;
+					i += 1;
+					continue;
+				}
+				files.push((args[i].clone(), std::fs::read_to_string(&args[i]).unwrap()));
+				i += 1;
+			}
+			let v = subjects::alpha::alpha_pipeline(&files, subjects::alpha::FULL);
+			match &v
+			{
+				subjects::alpha::Verdict::Ok { irs, linked, lints } =>
+				{
+					println!("accepted, lints {:?}", lints.iter().map(|l| l.code).collect::<Vec<_>>());
+					if show_ir
+					{
+						for ir in irs
+						{
+							println!("{ir}\n=====");
+						}
+						println!("{}", linked.clone().unwrap_or_default());
+					}
+					let e = subjects::exec::run_lli(linked.as_ref().unwrap(), 20_000);
+					println!("lli status {:?} signal {:?}\nstdout: {}\nstderr: {}", e.status, e.signal, e.stdout, e.stderr_tail);
+				}
+				other => println!("{other:?}"),
 			}
 		}
 		"list" =>
